@@ -18,6 +18,7 @@ import (
 	"io"
 	"log/slog"
 	"net"
+	"regexp"
 	"sort"
 	"strconv"
 	"strings"
@@ -115,23 +116,83 @@ func clShowEntry(e *security.SessionEntry, secret string, fb time.Duration, t0, 
 	return s
 }
 
-// clCmdKeys reads the command-map keys that point at sid out of DebugDump ("- {addr,<cmd>} -> sid").
+// clCmdKeys: the command-map keys that point at sid, read through the cache hook (not from the
+// human-readable DebugDump text).
 func clCmdKeys(c *security.SessionCache, sid string) string {
-	dump := c.DebugDump()
-	i := strings.Index(dump, "command_map:\n")
 	var keys []string
-	if i >= 0 {
-		for _, l := range strings.Split(dump[i+len("command_map:\n"):], "\n") {
-			l = strings.TrimPrefix(l, "- ")
-			if j := strings.Index(l, " -> "); j >= 0 {
-				if l[j+4:] == sid {
-					keys = append(keys, hex.EncodeToString([]byte(l[:j])))
-				}
-			}
+	for k, v := range security.VerifCommandMap(c) {
+		if v == sid {
+			keys = append(keys, hex.EncodeToString([]byte(k)))
 		}
 	}
 	sort.Strings(keys)
 	return "[" + strings.Join(keys, ",") + "]"
+}
+
+var clAttrRe = regexp.MustCompile(`^[A-Za-z_][A-Za-z0-9_]*=`)
+
+// clSplitInfo splits the inside of a session_info text at every ';' that is followed by the start of
+// an attribute (`Name=`) or by the end of the text — a ';' inside a value is not followed by one in
+// any text the grammar produces, and for arbitrary texts the split is still the same function on both
+// sides of the comparison. ok=false unless the result is a sequence of `Name=value;` entries.
+func clSplitInfo(content string) (parts []string, ok bool) {
+	if !strings.HasSuffix(content, ";") {
+		return nil, false
+	}
+	start := 0
+	for i := 0; i < len(content); i++ {
+		if content[i] == ';' && (i+1 == len(content) || clAttrRe.MatchString(content[i+1:])) {
+			parts = append(parts, content[start:i])
+			start = i + 1
+		}
+	}
+	if len(parts) == 0 {
+		return nil, false
+	}
+	for _, p := range parts {
+		if !clAttrRe.MatchString(p) {
+			return nil, false
+		}
+	}
+	return parts, true
+}
+
+// clInfoCanon puts the attributes of the session_info text `[Name=value;…]` inside s (a bare text, or
+// a claim id `<sid>#[info]<secret>`) into sorted order: the order of attributes in the text carries no
+// meaning (any ClassAd reader accepts any order), so a re-ordering by the library is not a difference.
+func clInfoCanon(s string) string {
+	end := strings.LastIndexByte(s, ']')
+	if end < 0 {
+		return s
+	}
+	for i := 0; i < end; i++ {
+		if s[i] != '[' {
+			continue
+		}
+		if parts, ok := clSplitInfo(s[i+1 : end]); ok {
+			sort.Strings(parts)
+			return s[:i+1] + strings.Join(parts, ";") + ";" + s[end:]
+		}
+	}
+	return s
+}
+
+var clHexTokRe = regexp.MustCompile(`(^|[ =])([0-9a-f]{8,})`)
+
+// clNorm canonicalises the session_info texts inside the hex-rendered values of a compared line
+// (applied to the model's line and the implementation's alike).
+func clNorm(line string) string {
+	return clHexTokRe.ReplaceAllStringFunc(line, func(m string) string {
+		i := 0
+		for i < len(m) && (m[i] == ' ' || m[i] == '=') {
+			i++
+		}
+		raw, err := hex.DecodeString(m[i:])
+		if err != nil || !strings.Contains(string(raw), "[") {
+			return m
+		}
+		return m[:i] + hex.EncodeToString([]byte(clInfoCanon(string(raw))))
+	})
 }
 
 func clEntry(c *security.SessionCache, id string) *security.SessionEntry {
@@ -811,7 +872,7 @@ func runClaim(c *Ctx) error {
 		cases = append(cases, Case{Label: fmt.Sprintf("malformed#%d", i), Ops: w.ops, Real: w.real})
 	}
 	// times and (random) secrets never repeat; compare everything else
-	return diffBatch(c, "claim", cases, nil)
+	return diffBatch(c, "claim", cases, clNorm)
 }
 
 // clCheckMinted runs imports, round trips, handshakes and corruptions for one minted claim and
@@ -830,7 +891,7 @@ func clCheckMinted(c *Ctx, w *clWorld, m clMint, r clMinted, viol func(w *clWorl
 		return false
 	}
 	exp := r.t0.Add(m.o.Lifetime).Unix()
-	if spec := clSpecInfo(m, exp); r.info != spec {
+	if spec := clSpecInfo(m, exp); clInfoCanon(r.info) != clInfoCanon(spec) {
 		viol(w, "C16:info-text", "session_info text differs from the grammar's rendering of the options", spec, r.info)
 	}
 	// --- public form
